@@ -273,13 +273,20 @@ func (g *gen) businessCmd() (string, [][]byte) {
 		args = append(args, g.key(), g.key())
 	case "all":
 		n := 1 + g.c.Choose("nkeys", 4)
+		if g.c.Choose("manykeys", 24) == 23 {
+			n = 50 + g.c.Choose("manykeysn", 150) // bulk deletes: more keys than any fixed-width bookkeeping holds
+		}
 		for i := 0; i < n; i++ {
 			args = append(args, g.key())
 		}
 	case "odd":
 		n := 1 + g.c.Choose("nkeys", 3)
+		lim := 1 << 20
+		if g.c.Choose("manykeys", 24) == 23 {
+			n, lim = 50+g.c.Choose("manykeysn", 150), 48
+		}
 		for i := 0; i < n; i++ {
-			args = append(args, g.key(), g.arg(1<<20))
+			args = append(args, g.key(), g.arg(lim))
 		}
 	case "bitop": // BITOP <op> <dest> <src> [<src> ...]
 		args = append(args, []byte([]string{"AND", "or", "XOR"}[g.c.Choose("bitopop", 3)]), g.key())
